@@ -157,6 +157,42 @@ func report(g *Gen, p *PropConfig, bl *Baseline, out *CheckOutcome, tier string,
 	}
 	sort.Strings(brokenFuncs)
 
+	// A proved safety bound (index, slice, division, make, Repeat count, type assertion) that is gone from
+	// a function which now carries a NEW obligation of the same kind that does not discharge: the bound
+	// was replaced by one that can no longer be proved.
+	safetyKind := func(id string) string {
+		i := strings.Index(id, "/")
+		if i < 0 {
+			return ""
+		}
+		rest := id[i+1:]
+		for _, k := range []string{"index:", "slice:", "div:", "makeslice:", "typeassert:", "overflow:", "allocbound:"} {
+			if strings.HasPrefix(rest, k) {
+				return id[:i] + "/" + k
+			}
+		}
+		return ""
+	}
+	lostSafety := map[string]string{}
+	for _, id := range missing {
+		if k := safetyKind(id); k != "" {
+			lostSafety[k] = id
+		}
+	}
+	var replaced []*OblResult
+	if len(lostSafety) > 0 {
+		for _, r := range out.Results {
+			if r.Cover || bl.Claimed[r.ID] || bl.NotClaimed[r.ID] || r.Answer == "unsat" || r.Answer == "sat" {
+				continue
+			}
+			if k := safetyKind(r.ID); k != "" && lostSafety[k] != "" {
+				if _, isKnown := known[r.ID]; !isKnown {
+					replaced = append(replaced, r)
+				}
+			}
+		}
+	}
+
 	// replay / violation files
 	replayDir := filepath.Join(env("VERIF_REPLAY_DIR", filepath.Join(verif, "replay")), p.ID)
 	var vioLines []string
@@ -192,6 +228,21 @@ func report(g *Gen, p *PropConfig, bl *Baseline, out *CheckOutcome, tier string,
 		vioLines = append(vioLines, line)
 	}
 
+	for _, r := range replaced {
+		os.MkdirAll(replayDir, 0o755)
+		path := filepath.Join(replayDir, sanitize(r.ID)+"_replaced.txt")
+		rep := tryReplay(g, p, r, verif, repo)
+		msg := fmt.Sprintf("property: %s\nobligation: %s\nkind: %s\nsource: %s\nstatus: a bound of this kind was proved in this function on the unchanged tree (%s) and is gone; the bound that stands in its place does not discharge (solver answer: %s)\nreplay: %s\n", p.ID, r.ID, r.Kind, strings.Join(r.Src, " "), lostSafety[safetyKind(r.ID)], r.Answer, rep.Summary)
+		if rep.Output != "" {
+			msg += "---- replay output ----\n" + rep.Output + "\n"
+		}
+		os.WriteFile(path, []byte(msg), 0o644)
+		line := fmt.Sprintf("VIOLATION property=%s replay=%s obligation=%s", p.ID, path, r.ID)
+		if !rep.Confirmed {
+			line += " no-failing-input-found"
+		}
+		vioLines = append(vioLines, line)
+	}
 	for _, lh := range lostHints {
 		fn := lh.id[:strings.Index(lh.id, "/hint:")]
 		if _, broken := out.FuncErrs[fn]; broken {
